@@ -27,8 +27,10 @@ type SpecFile struct {
 }
 
 type SpecDB struct {
-	Fns   map[string]*SpecFn
-	Files []*SpecFile
+	Fns    map[string]*SpecFn
+	Files  []*SpecFile
+	Ghosts map[string]string // ghost heap name -> SMT sort ("; ghost name sort" lines in spec files)
+	Async  map[string]bool   // ghosts that may change at every channel operation ("; ghost-async name sort")
 }
 
 type sexp struct {
@@ -169,13 +171,29 @@ func loadSpecFile(path string) (*SpecFile, []*SpecFn, error) {
 }
 
 func loadSpecs(verifDir string, names []string) (*SpecDB, error) {
-	db := &SpecDB{Fns: map[string]*SpecFn{}}
+	db := &SpecDB{Fns: map[string]*SpecFn{}, Ghosts: map[string]string{}, Async: map[string]bool{}}
 	for _, n := range names {
 		sf, fns, err := loadSpecFile(filepath.Join(verifDir, "spec", n))
 		if err != nil {
 			return nil, err
 		}
 		db.Files = append(db.Files, sf)
+		for _, line := range strings.Split(sf.Text, "\n") {
+			line = strings.TrimSpace(line)
+			if strings.HasPrefix(line, "; ghost-async ") {
+				f := strings.SplitN(strings.TrimPrefix(line, "; ghost-async "), " ", 2)
+				if len(f) == 2 {
+					db.Ghosts[f[0]] = strings.TrimSpace(f[1])
+					db.Async[f[0]] = true
+				}
+			}
+			if strings.HasPrefix(line, "; ghost ") {
+				f := strings.SplitN(strings.TrimPrefix(line, "; ghost "), " ", 2)
+				if len(f) == 2 {
+					db.Ghosts[f[0]] = strings.TrimSpace(f[1])
+				}
+			}
+		}
 		for _, f := range fns {
 			db.Fns[strings.Trim(f.Name, "|")] = f
 		}
